@@ -1,0 +1,22 @@
+//go:build verif
+
+package time
+
+// Contracts for fvc (see /verif/DESIGN.md). Comment-only file.
+
+//@ func DurationMax
+//@   ensures [C06,C07,C08,C12,C13] result == max(a, b)
+
+//@ func DurationMin
+//@   ensures result == min(a, b)
+
+//@ func Max
+//@   ensures [C01] result == (a.Before(b) ? b : a)
+
+//@ func Min
+//@   ensures [C01] result == (a.Before(b) ? a : b)
+
+//@ func MinNonZero
+//@   ensures [C01] a.IsZero() ==> result == b
+//@   ensures [C01] !a.IsZero() && b.IsZero() ==> result == a
+//@   ensures [C01] !a.IsZero() && !b.IsZero() ==> result == (a.Before(b) ? a : b)
